@@ -544,7 +544,7 @@ theorem fmtPV_of_render (ops : NumOps) (p : Prefs) (hsp : isBlank p.spacer = tru
 /-! ## leaves: what the serializers of simple values write is an ordinary word -/
 
 theorem helperString_shape (v : Cps) : ∃ m, helperString v = cQuote :: (m ++ [cQuote]) :=
-  ⟨if (escStringChars v).getLast? = some cBackslash then (escStringChars v).dropLast ++ [cBackslash, cBackslash]
+  ⟨if ((escStringChars v).reverse.takeWhile (· = cBackslash)).length % 2 = 1 then escStringChars v ++ [cBackslash]
     else escStringChars v, by simp [helperString]⟩
 
 /-- a text that starts with a character which is neither punctuation, white space nor `*`, and ends with a character
